@@ -154,21 +154,33 @@ func runOne(ctx context.Context, spec solverSpec, query string, timeoutS int) (s
 
 // Solve races the portfolio. all=true waits for every backend (cross-check).
 func Solve(query string, timeoutS int, all bool) SolverResult {
+	return SolveVariants([]string{query}, timeoutS, all)
+}
+
+// SolveVariants races the portfolio over several equisatisfiable renderings
+// of one query (variant 0 is the plain one).
+func SolveVariants(queries []string, timeoutS int, all bool) SolverResult {
 	solverSem <- struct{}{}
 	defer func() { <-solverSem }()
 	start := time.Now()
 	ctx, cancel := context.WithTimeout(context.Background(), time.Duration(timeoutS+2)*time.Second)
 	defer cancel()
 	type ans struct{ backend, status, raw string }
-	ch := make(chan ans, len(solverSpecs))
+	ch := make(chan ans, len(solverSpecs)*len(queries))
 	var wg sync.WaitGroup
-	for _, sp := range solverSpecs {
-		wg.Add(1)
-		go func(sp solverSpec) {
-			defer wg.Done()
-			st, raw := runOne(ctx, sp, query, timeoutS)
-			ch <- ans{sp.name, st, raw}
-		}(sp)
+	for qi, query := range queries {
+		for _, sp := range solverSpecs {
+			wg.Add(1)
+			go func(sp solverSpec, qi int, query string) {
+				defer wg.Done()
+				st, raw := runOne(ctx, sp, query, timeoutS)
+				name := sp.name
+				if qi > 0 {
+					name += "/strings-abstracted"
+				}
+				ch <- ans{name, st, raw}
+			}(sp, qi, query)
+		}
 	}
 	go func() { wg.Wait(); close(ch) }()
 	res := SolverResult{Status: "unknown", All: map[string]string{}}
